@@ -129,7 +129,7 @@ def obligations(tier):
     nmax = 1 if tier == "quick" else 2
     for dia in ("PVL", "ODL", "PDS3", "ISIS"):
         for shape in rt.SHAPES:
-            if shape == "wrapunits":
+            if shape in ("wrapunits", "quantbad"):
                 continue              # its leaf is an integer
             for n in range(0, nmax + 1):
                 obs.append(Repeat(dialect=dia, shape=shape, n=n, cfg="default", entry="encode"))
